@@ -70,3 +70,59 @@ pub fn run(args: &[String]) {
     emit(o);
   }
 }
+
+/// usage: vharness effchain <seed> <n>
+/// SPDC::efficiencies against efficiencies_from_counts applied to the three rates obtained through SPDC::counts_* and through the
+/// free functions of spdc/counts.rs, on a small grid (consumer: props/wrappers.py, part "efficiencies").
+pub fn run_eff(args: &[String]) {
+  use spdcalc::math::Integrator;
+  let seed = arg_u64(args, 0, 1);
+  let n = arg_u64(args, 1, 4) as usize;
+  let mut rng = Rng::new(seed);
+  for case in 0..n {
+    let mut spdc = SPDC::default();
+    let length = rng.log_range(5e-4, 5e-3);
+    spdc.crystal_setup.length = length * M;
+    let w = rng.log_range(40e-6, 200e-6);
+    spdc.signal.set_waist(w * M);
+    spdc.idler.set_waist(w * rng.range(0.7, 1.4) * M);
+    let res = 3 + rng.below(3);
+    let divs = 4 + 2 * rng.below(3);
+    let integrator = Integrator::Simpson { divs };
+    let r = guarded(std::panic::AssertUnwindSafe(|| {
+      let ranges = spdc.optimum_range(res);
+      let e = spdc.efficiencies(ranges, integrator);
+      let e_free = efficiencies(&spdc, ranges, integrator);
+      let (c, rs, ri) = (
+        spdc.counts_coincidences(ranges, integrator),
+        spdc.counts_singles_signal(ranges, integrator),
+        spdc.counts_singles_idler(ranges, integrator),
+      );
+      let (c2, rs2, ri2) = (
+        counts_coincidences(&spdc, ranges, integrator),
+        counts_singles_signal(&spdc, ranges, integrator),
+        counts_singles_idler(&spdc, ranges, integrator),
+      );
+      let e_from = efficiencies_from_counts(c, rs, ri);
+      let hz = |x: spdcalc::dim::ucum::Hertz<f64>| *(x / spdcalc::dim::ucum::HZ);
+      let v = |e: &Efficiencies| vec![e.symmetric, e.signal, e.idler, hz(e.coincidences), hz(e.signal_singles), hz(e.idler_singles)];
+      (v(&e), v(&e_free), v(&e_from), vec![hz(c), hz(rs), hz(ri)], vec![hz(c2), hz(rs2), hz(ri2)])
+    }));
+    let mut o = json!({"kind": "effchain", "case": case, "L": fx(length), "waist": fx(w), "resolution": res, "divs": divs});
+    match r {
+      Ok((e, e_free, e_from, m, f)) => {
+        o["ok"] = json!(true);
+        o["method"] = fxs(&e);
+        o["free"] = fxs(&e_free);
+        o["from_counts"] = fxs(&e_from);
+        o["rates_method"] = fxs(&m);
+        o["rates_free"] = fxs(&f);
+      }
+      Err(msg) => {
+        o["ok"] = json!(false);
+        o["panic"] = json!(msg);
+      }
+    }
+    emit(o);
+  }
+}
